@@ -75,6 +75,39 @@ class Context:
             self._results[name] = fn()
         return self._results[name]
 
+    def rules_hash(self):
+        """Hash of the framework's rule code: cached rule results are only reused by the same rules."""
+        import hashlib
+        h = hashlib.sha256()
+        d = os.path.dirname(os.path.abspath(__file__))
+        for f in sorted(os.listdir(d)):
+            if f.endswith(".py"):
+                h.update(f.encode())
+                h.update(open(os.path.join(d, f), "rb").read())
+        return h.hexdigest()[:12]
+
+    def group(self, name, fn):
+        """Rule results of one runner group, cached on disk per (tree hash, rules hash, tier)."""
+        key = "group_" + name
+        if key in self._results:
+            return self._results[key]
+        import json
+        from .core import RuleResult, Violation, write_json
+        path = os.path.join(self.art.dir, "results", self.rules_hash(), "%s_%s.json" % (name, self.tier))
+        if os.path.exists(path) and not os.environ.get("VERIF_NO_RESULT_CACHE"):
+            out = []
+            for d in json.load(open(path)):
+                rr = RuleResult(d["rule"])
+                rr.instances, rr.samples, rr.counts, rr.notes = d["instances"], d["samples"], d["counts"], d["notes"]
+                rr.violations = [Violation(v["rule"], v["key"], v["where"], v["msg"], v["detail"]) for v in d["violations"]]
+                out.append(rr)
+        else:
+            out = fn()
+            write_json(path, [{"rule": r.rule, "instances": r.instances, "samples": r.samples, "counts": r.counts, "notes": r.notes,
+                               "violations": [v.to_json() for v in r.violations]} for r in out])
+        self._results[key] = out
+        return out
+
     def per_model(self, rule_names, fn, sets=("shipped", "corpus"), use="model"):
         """Run fn(program) -> RuleResult | list[RuleResult] over all programs and merge by rule.
         Programs that failed to emit/parse produce ANCHOR violations (fail closed)."""
